@@ -24,7 +24,7 @@ REQUIRED_THEOREMS = ['CfVerif.C10.' + n for n in (
     'src_repaired', 'gen_retry_args', 'gen_patterns', 'gen_size_check', 'gen_check_for_answers',
     'retries_until_answered', 'retry_fires', 'retries_at_timeout', 'retries_at_t0_plus_kT', 'no_retry_after_answer',
     'longest_prefix_only', 'nothing_on_closed_link', 'no_cross_session_tx', 'reliable_link_no_retry',
-    'reliable_links_no_timers', 'driver_needs_resending', 'gen_link_read_once', 'gen_forget_order', 'gen_check_better', 'live_no_retry_after_answer_counterexample',
+    'reliable_links_no_timers', 'driver_needs_resending', 'gen_link_read_once', 'gen_forget_order', 'gen_check_better', 'gen_deferred_link_error', 'driver_error_inside_send', 'live_no_retry_after_answer_counterexample',
     'live_no_cross_session_tx_counterexample', 'live_retries_at_timeout_counterexample')]
 TRUSTED = ['harness/corr/c10.py: the path analysis of send_packet (conditions -> Boolean functions over six atoms), the extraction of '
            'close_link/_link_error_cb/open_link flags, and the correspondence harness',
@@ -271,6 +271,48 @@ def _first_index(fn, pred):
     return None
 
 
+def _critical_section(cls, sp, rest, g):
+    """statements of send_packet's critical section.  Either written inline (acquire ... release) or, since the D2 repair,
+    `acquire; owner = current_thread(); try: self._send_packet_locked(<same names>) finally: <pick up a link error the driver
+    reported from inside the send>; release` followed by running that deferred error.  Emits what the wrapper does."""
+    tries = [st for st in rest if isinstance(st, ast.Try)]
+    flags = {'sendLockReleasedInFinally': False, 'sendOwnerTracked': False, 'sendRunsDeferredErrorAfterRelease': False}
+    body = rest
+    if tries:
+        X.expect(len(tries) == 1, 'send_packet: several try blocks')
+        t = tries[0]
+        i = rest.index(t)
+        pre = [_u(st) for st in rest[:i]]
+        X.expect(pre[:1] == ['self._send_lock.acquire()'] and set(pre[1:]) <= {'self._send_lock_owner = current_thread()'},
+                 'send_packet: statements before the try block are not understood: %s' % pre)
+        X.expect(not t.handlers and not t.orelse and len(t.body) == 1 and isinstance(t.body[0], ast.Expr) and isinstance(t.body[0].value, ast.Call),
+                 'send_packet: the try block is not a single call of the locked part')
+        call = t.body[0].value
+        X.expect(isinstance(call.func, ast.Attribute) and _u(call.func.value) == 'self' and not call.keywords and
+                 all(isinstance(a, ast.Name) for a in call.args), 'send_packet: call of the locked part is not understood: ' + _u(call))
+        callee = X.find(cls, call.func.attr)
+        cparams = [a.arg for a in callee.args.args][1:]
+        X.expect(cparams == [a.id for a in call.args] and set(cparams) <= {a.arg for a in sp.args.args},
+                 'send_packet: %s is not called with its own parameter names %s' % (call.func.attr, cparams))
+        fin = [_u(st) for st in t.finalbody]
+        X.expect(set(fin) <= {'errmsg = self._deferred_link_error', 'self._deferred_link_error = None', 'self._send_lock_owner = None',
+                              'self._send_lock.release()'}, 'send_packet: finally block is not understood: %s' % fin)
+        flags['sendLockReleasedInFinally'] = fin[-1:] == ['self._send_lock.release()']
+        flags['sendOwnerTracked'] = 'self._send_lock_owner = current_thread()' in pre and 'self._send_lock_owner = None' in fin \
+            and fin.index('self._send_lock_owner = None') < len(fin) - 1
+        post = rest[i + 1:]
+        picks = 'errmsg = self._deferred_link_error' in fin and 'self._deferred_link_error = None' in fin and \
+            fin.index('errmsg = self._deferred_link_error') < fin.index('self._deferred_link_error = None')
+        if post:
+            X.expect(len(post) == 1 and isinstance(post[0], ast.If) and _u(post[0].test) == 'errmsg is not None' and not post[0].orelse and
+                     [_u(b) for b in post[0].body] == ['self._link_error_cb(errmsg)'], 'send_packet: statements after the try block are not understood')
+        flags['sendRunsDeferredErrorAfterRelease'] = bool(post) and picks and flags['sendLockReleasedInFinally']
+        body = [st for st in callee.body if not (isinstance(st, ast.Expr) and isinstance(st.value, ast.Constant))]
+    for k, v in flags.items():
+        g.raw('def %s : Bool := %s' % (k, _lbool(v)))
+    return body
+
+
 def _needs_resending_assigns(node):
     return [(n.lineno, _u(n.targets[0]), n.value) for n in ast.walk(node)
             if isinstance(n, ast.Assign) and len(n.targets) == 1 and _u(n.targets[0]).endswith('.needs_resending')]
@@ -301,7 +343,7 @@ def extract(ctx):
     X.expect(body and isinstance(body[0], ast.If) and len(body[0].body) == 1 and isinstance(body[0].body[0], ast.Raise) and not body[0].orelse,
              'send_packet: expected the packet size check (if ...: raise) as first statement')
     g.string('sizeCheck', _u(body[0].test))
-    rest = body[1:]
+    rest = _critical_section(cls, sp, body[1:], g)
     X.expect(not any(isinstance(n, (ast.Return, ast.Raise, ast.While, ast.For, ast.Break, ast.Continue)) for s in rest for n in ast.walk(s)),
              'send_packet: return/raise/loop after the size check is not understood')
     an = _Send(sp)
@@ -402,6 +444,12 @@ def extract(ctx):
     g.raw('def closeCancels : Bool := ' + _lbool(c_cancel))
     g.raw('def closeClears : Bool := ' + _lbool(c_clear))
     er = X.find(cls, '_link_error_cb')
+    ebody = [st for st in er.body if not (isinstance(st, ast.Expr) and isinstance(st.value, ast.Constant))]
+    eparam = [a.arg for a in er.args.args][1:]
+    defers = bool(ebody) and isinstance(ebody[0], ast.If) and _u(ebody[0].test) in ('self._send_lock_owner is current_thread()', 'current_thread() is self._send_lock_owner') \
+        and not ebody[0].orelse and len(eparam) == 1 and [_u(b) for b in ebody[0].body] == ['self._deferred_link_error = ' + eparam[0], 'return']
+    g.raw('/-- a link error reported by the driver to the thread that is inside send_packet is only recorded (and run after the lock is released) -/')
+    g.raw('def errorCbDefersInsideSend : Bool := ' + _lbool(defers))
     e_cancel, e_clear = _cancel_clear(cls, er)
     texts = [_u(s) for s in er.body]
     X.expect('self.link = None' in texts and any(isinstance(s, ast.If) and [_u(b) for b in s.body] == ['self.link.close()'] for s in er.body),
@@ -514,6 +562,12 @@ class FakeLink:
 
     def send_packet(self, pk):
         self.log.append((self.sid, getattr(pk, '_c10_id', 0), 1 if self.closed else 0))
+        if self.fail_next:
+            # what RadioDriver.send_packet does when its out queue stays full: report the error from inside the call
+            self.fail_next = False
+            self.link_error_callback('scripted driver error inside send_packet')
+
+    fail_next = False
 
     def receive_packet(self, wait=0):
         return None
@@ -582,6 +636,14 @@ class Real:
                     hook()
         self.cf.commander = CommanderProxy()
         self.after_setpoint = None
+        self.mid = None
+        self.want_mid = False
+
+        def packet_sent(pk):
+            # last statement of the critical section: what a failing send looks like before the deferred link error runs
+            if self.want_mid:
+                self.mid = self.delta()
+        self.cf.packet_sent.add_callback(packet_sent)
         self.reset()
 
     def restore(self):
@@ -634,6 +696,18 @@ class Real:
     # -- one scripted step; returns the reply line(s)
     def do(self, op):
         k = op[0]
+        if k in ('sendf', 'runf'):
+            # the driver reports a link error from inside link.send_packet
+            if self.cf.link is not None:
+                self.cf.link.fail_next = True
+            self.mid, self.want_mid = None, True
+            try:
+                rep = self.do(('send' if k == 'sendf' else 'run',) + tuple(op[1:]))
+            finally:
+                self.want_mid = False
+                if self.cf.link is not None:
+                    self.cf.link.fail_next = False
+            return rep if self.mid is None or rep.startswith('err') else self.mid + ' | ' + rep
         try:
             if k == 'open':
                 def get_link_driver(uri, stats_cb=None, error_cb=None):
@@ -710,8 +784,8 @@ class Real:
 
 def op_line(op):
     k = op[0]
-    if k == 'send':
-        return 'send %d %d %d %s %d' % (op[1], op[2], op[3], ','.join(map(str, op[4])) or '-', op[5])
+    if k in ('send', 'sendf'):
+        return '%s %d %d %d %s %d' % (k, op[1], op[2], op[3], ','.join(map(str, op[4])) or '-', op[5])
     if k == 'recv':
         return 'recv %d %s' % (op[1], ','.join(map(str, op[2])) or '-')
     return ' '.join(str(x) for x in op)
@@ -824,7 +898,7 @@ def rand_step(rng, sc, allow_close=True):
         sc.next_id += 1
         header = rng.choice(HEADERS[:2] if rng.random() < 0.7 else HEADERS)
         sc.sent.append((pid, header, size, exp, tmo))
-        return ('send', pid, header, size, exp, tmo, rng.random() < 0.3)
+        return ('sendf' if rng.random() < 0.06 else 'send', pid, header, size, exp, tmo, rng.random() < 0.3)
     if r < 0.40:
         h, d = rand_reply(rng, sc)
         return ('recv', h, d)
@@ -834,9 +908,10 @@ def rand_step(rng, sc, allow_close=True):
             return ('expire', rng.choice(due))
         return ('expire', rng.randrange(len(sc.real.timers) + 1))
     if r < 0.74:
+        k = 'runf' if rng.random() < 0.08 else 'run'
         if expired and rng.random() < 0.9:
-            return ('run', rng.choice(expired))
-        return ('run', rng.randrange(len(sc.real.timers) + 1))
+            return (k, rng.choice(expired))
+        return (k, rng.randrange(len(sc.real.timers) + 1))
     if r < 0.86:
         dls = sorted(sc.real.timers[i].deadline - now for i in armed if sc.real.timers[i].deadline > now)
         if dls and rng.random() < 0.8:
@@ -907,6 +982,14 @@ def gen_families(rng, thorough):
                 'reopen-without-close': [('open', nr)],
                 'nonmatching': [('recv', H, (3,)), ('recv', HEADERS[1], (3, 7, 1)), ('recv', H, (3, 8, 7))],
             }
+            # the driver reports a link error from inside the retransmission (deferred until the send lock is released)
+            failing_thread = [('adv', tmo), ('expire', 0), ('runf', 0), ('adv', tmo), ('expire', 1), ('run', 1)]
+            for name, oth in (('driver-error', [('recv', H, (3, 7, 1))]),
+                              ('driver-error-reopen', [('open', nr), ('sendf', 2, H, 2, (3, 7), tmo, True)])):
+                for order in interleavings(failing_thread, oth):
+                    out.append(('order:%s:nr%d:t%d' % (name, nr, tmo),
+                                [('open', nr), ('send', 1, H, 2, (3, 7), tmo, tmo != 200)] + order +
+                                [('adv', 1000)] + [('expire', i) for i in range(4)] + [('run', i) for i in range(4)]))
             for name, oth in others.items():
                 for order in interleavings(timer_thread, oth):
                     tail = [('adv', tmo)] + [('expire', i) for i in range(4)] + [('run', i) for i in range(4)] + \
@@ -928,12 +1011,12 @@ def gen_families(rng, thorough):
 
 
 def gen_exhaustive(depth):
-    """EVERY sequence of `depth` steps over a 15-step alphabet after two prefix-sharing requests were sent"""
+    """EVERY sequence of `depth` steps over a 16-step alphabet after two prefix-sharing requests were sent"""
     import itertools
     H = HEADERS[0]
     alphabet = [('adv', 200), ('adv', 800), ('expire', 0), ('expire', 1), ('expire', 2), ('run', 0), ('run', 1), ('run', 2),
                 ('recv', H, (1, 9)), ('recv', H, (1, 2, 9)), ('close', []), ('open', 1), ('lerr',),
-                ('send', 3, H, 1, (1,), 200, False), ('setnr', 0)]
+                ('send', 3, H, 1, (1,), 200, False), ('setnr', 0), ('runf', 0)]
     prefix = [('open', 1), ('send', 1, H, 1, (1,), 200, False), ('send', 2, H, 2, (1, 2), 1000, True)]
     for seq in itertools.product(alphabet, repeat=depth):
         yield 'exhaustive', prefix + list(seq)
@@ -1072,7 +1155,7 @@ RULE = ('cases = scripts of send / reply / timer-expiry / timer-callback / time 
         'link-error / open / needs_resending-change steps run on the real Crazyflie object (recording fake link, manually fired '
         'Timer) and on the Lean model; systematic families enumerate EVERY interleaving of the timer thread\'s steps with a reply, a '
         'close+reopen, a link error+reopen, a re-registration of the pattern, for needs_resending on/off and both timeouts, and all '
-        'non-empty subsets of five prefix-sharing patterns x nine replies; EVERY sequence of 3 (thorough: 4) steps over a 15-step '
+        'non-empty subsets of five prefix-sharing patterns x nine replies; EVERY sequence of 3 (thorough: 4) steps over a 16-step '
         'alphabet after two prefix-sharing requests; random scripts follow the real timer states; real dispatcher and Timer threads '
         'under the virtual-time scheduler (depth-first over the schedules with <= 2 preemptions) must produce transmission logs the '
         'model produces for some ordering; '
@@ -1133,9 +1216,22 @@ def _parse_reply(rep):
 
 
 def monitor(lines, replies):
-    """returns [(key, what, step index)] - the clauses of C10 violated by the observed run.
+    """returns [(key, what, script up to the offending step, its reply)] - the clauses of C10 violated by the observed run.
     A request = one `send` with a non-empty expected reply on an open link that needs resending."""
     out = []
+    # a send / callback during which the driver reported a link error = that step followed by the (deferred) link error
+    xl, xr = [], []
+    for line, rep in zip(lines, replies):
+        if line.startswith('sendf ') or line.startswith('runf '):
+            line = line.replace('sendf ', 'send ', 1).replace('runf ', 'run ', 1)
+            if ' | ' in rep:
+                a, b = rep.split(' | ')
+                xl += [line, 'lerr']
+                xr += [a, b]
+                continue
+        xl.append(line)
+        xr.append(rep)
+    lines, replies = xl, xr
     now = 0
     link = None            # (sid, needs_resending)
     reqs = []              # dicts
@@ -1237,7 +1333,7 @@ def monitor(lines, replies):
             if not live:
                 out.append(('missing-retry', 'an unanswered request on an open link has no retry timer pending', step))
                 r['superseded'] = True      # report once
-    return out
+    return [(key, what, lines[:step + 1], replies[step]) for key, what, step in out]
 
 
 def load_corpus():
@@ -1257,10 +1353,51 @@ def load_corpus():
     return res
 
 
+def radio_negotiation(outcomes):
+    """run the safelink negotiation of the real _RadioDriverThread (synchronously, main loop disabled) once per entry of `outcomes`
+    on ONE RadioDriver object, as RadioDriver.restart() does; returns link.needs_resending after each negotiation"""
+    import cflib.crtp.radiodriver as rd
+
+    class Ack:
+        def __init__(self, data):
+            self.ack = True
+            self.data = data
+
+    class Radio:
+        def __init__(self, ok):
+            self.ok = ok
+
+        def send_packet(self, data):
+            return Ack((0xff, 0x05, 0x01)) if self.ok and tuple(data) == (0xff, 0x05, 0x01) else Ack(())
+    link = rd.RadioDriver()
+    flags = []
+    for ok in outcomes:
+        th = rd._RadioDriverThread(Radio(ok), None, None, None, None, link, None)
+        th._sp = True            # leave run() right after the negotiation
+        th.run()
+        flags.append(bool(link.needs_resending))
+    return flags
+
+
 def search(ctx):
     rng = ctx.rng
     seen = set()
     n = 0
+    # which links guarantee delivery: the radio link does iff safelink was negotiated - also when the driver is restarted
+    for outcomes in ([True], [False], [True, False], [False, True], [True, False, True, False]):
+        try:
+            flags = radio_negotiation(outcomes)
+        except Exception as e:      # the driver changed shape: not a verdict about the property
+            ctx.note('radio negotiation replay not possible: %r' % (e,))
+            break
+        if flags != [not ok for ok in outcomes] and 'lossy-link-not-retried' not in seen:
+            lossy = next(i for i, (f, ok) in enumerate(zip(flags, outcomes)) if f != (not ok))
+            sc = run_script([('open', int(flags[lossy])), ('send', 1, HEADERS[0], 2, (3, 7), 200, False), ('adv', 200), ('expire', 0), ('run', 0)])
+            seen.add('lossy-link-not-retried')
+            ctx.witness('lossy-link-not-retried', 'after safelink negotiations %s on one radio driver, needs_resending is %s: a request on the radio link '
+                        'without safelink (which does not guarantee delivery) gets no retry timer, or one with safelink is retried'
+                        % (['ok' if o else 'failed' for o in outcomes], flags),
+                        {'family': 'radio-negotiation', 'negotiations': outcomes, 'needs_resending': flags, 'script': sc.lines}, reply=sc.replies[2])
     try:
         scripts = [('corpus:' + name, lambda ops=ops: run_script(ops)) for name, ops in load_corpus()]
         scripts += [(name, lambda ops=ops: run_script(ops)) for name, ops in gen_families(rng, ctx.tier == 'thorough')]
@@ -1269,11 +1406,11 @@ def search(ctx):
         for name, thunk in scripts:
             sc = thunk()
             n += 1
-            for key, what, step in monitor(sc.lines, sc.replies):
+            for key, what, prefix, reply in monitor(sc.lines, sc.replies):
                 if key in seen:
                     continue
                 seen.add(key)
-                ctx.witness(key, what, {'family': name, 'script': sc.lines[:step + 1]}, reply=sc.replies[step])
+                ctx.witness(key, what, {'family': name, 'script': prefix}, reply=reply)
     finally:
         Real.get().restore()
     ctx.count('search:scripts', n)
